@@ -28,7 +28,13 @@ RULE = ("Hypothesis draws a process network as a history of operations: 1-5 laun
         "last (or main) closes the channel and the receivers drain it until nil. The network is not determinate, so "
         "the oracle is a validity predicate over the receivers' logs: every logged value was sent, none twice, one "
         "sender's values in sending order within a log, len() <= capacity(), and at completion the union of the logs "
-        "is exactly the set sent. Non-trivial there: >= 3 fibers and >= 3 values.")
+        "is exactly the set sent. In one Mode M network in three a receiver closes the channel early (after its q-th "
+        "value, optionally after and before a round trip with a helper fiber so that it parks elsewhere while a value "
+        "sits in the closed channel, optionally not receiving any more): senders wrap each send, print 'trying' / "
+        "'sent' / 'refused' with a shared logical clock and stop at the first refusal; then exactly the values whose "
+        "send returned normally must arrive, a refused value must not, a send that began after the close must be "
+        "refused, and on a synchronous channel every 'sent' comes after the matching 'got'. Non-trivial there: >= 3 "
+        "fibers and >= 3 values.")
 ASSUMPTIONS = ["single-writer single-reader networks are determinate, so the model does not need the schedule",
                "the fiber scheduler is deterministic and not steered: scheduler states are reached by varying the "
                "program (launch order, capacities, operation order)"]
@@ -104,3 +110,28 @@ def run_case(case, ctx):
     labels = labels_of(net, m) + (["nontrivial"] if nontrivial else []) + (["boxed"] if net.get("boxed") else [])
     return Outcome(key=ev["src"], nontrivial=nontrivial, labels=labels, failure=fail,
                    sample={"caps": net["caps"], "scripts": [[list(o) for o in s] for s in net["scripts"]]}, runs=runs)
+
+
+def shrink(case, still_fails):
+    """Mode M networks are not shrunk structurally (a network without senders, or whose closer is gone, deadlocks for
+    reasons of its own); everything else goes through the generic shrinker."""
+    from .. import shrink as _shrink
+    if isinstance(case, tuple) and case and isinstance(case[0], dict) and case[0].get("mode") == "M":
+        net, sel = case
+        best = net
+        for key in ("work",):
+            cand = dict(best)
+            cand[key] = [0] * len(best[key])
+            if still_fails((cand, sel)):
+                best = cand
+        for i in range(len(best["counts"])):
+            while best["counts"][i] > 1:
+                cand = dict(best)
+                cand["counts"] = list(best["counts"])
+                cand["counts"][i] -= 1
+                if still_fails((cand, sel)):
+                    best = cand
+                else:
+                    break
+        return (best, sel)
+    return _shrink.shrink(case, still_fails, 1500)
